@@ -2,7 +2,7 @@
    Proved here: the sender-side mechanisms (staleness test, resend flag, dead references); that each
    Unreliable/TimeSensitive fragment occurs at most once in the emitted frames is checked on the
    implementation's frames by the oracle and through the model correspondence (see DESIGN.md). *)
-From UF Require Import Consts Base Frame Codec Sender Heap FrameQueue HalfConn HcLemmas ResendKept HcTotal EmitRefs TsEpoch PullBegins.
+From UF Require Import Consts Base Frame Codec Sender Heap FrameQueue HalfConn HcLemmas ResendKept HcTotal EmitRefs TsEpoch PullBegins NoLeftover.
 
 (* a packet leaves the send queue with the next sequence id, never as a stale TimeSensitive packet, and is
    marked for retransmission exactly when its mode is Persistent or Reliable *)
@@ -121,6 +121,14 @@ Theorem C12_check_push_guarantees_push :
     (resend = true -> In (mkFragRef uid frag) (ip_refs ip)).
 Proof. exact check_push_guarantees_push. Qed.
 Print Assumptions C12_check_push_guarantees_push.
+
+(* flush() never abandons a data frame under construction: what emit_data_frames returns comes from an emitter state
+   with no frame in progress (every early return finishes the frame first, the regular end finishes it explicitly) *)
+Theorem C12_flush_finishes_frames :
+  forall fuel h out h' out' ok, emit_data_frames fuel h out = Ok (h', out', ok) ->
+  exists e, es_h e = h' /\ es_out e = out' /\ es_ip e = None.
+Proof. exact emit_data_frames_no_leftover. Qed.
+Print Assumptions C12_flush_finishes_frames.
 
 (* non-vacuity: a TimeSensitive packet flushed in the epoch of its send() goes out as a 19-byte frame; after one
    more step() the flush emits nothing and the packet is gone from the queue *)
